@@ -317,6 +317,87 @@ func c03Assumption(c *Check) {
 			return found
 		}
 		maddyOK = hasLogoutOfPrev(r.FI, 0)
+		// … and it is reached whenever there is a previous session: in the world "the connection has a session of our
+		// type and it is not nil" every successful return of the function that contains the call passed it
+		if maddyOK {
+			var holder *FuncInfo
+			var findHolder func(fi *FuncInfo, depth int)
+			findHolder = func(fi *FuncInfo, depth int) {
+				for _, call := range callsIn(fi.Decl.Body) {
+					if methodName(call) == "Logout" {
+						if o := recvObj(fi.Info(), call); o != nil {
+							if def, _ := localDef(fi.Info(), fi.Decl.Body, o); def != nil && strings.Contains(exprStr(def), "Session()") {
+								holder = fi
+							}
+						}
+					}
+					if depth < 2 {
+						if fn := callee(fi.Info(), call); fn != nil && fn.Pkg() == fi.Obj.Pkg() && fn != fi.Obj {
+							if d := c.P.DeclOf(fn); d != nil && d.Decl.Body != nil {
+								findHolder(d, depth+1)
+							}
+						}
+					}
+				}
+			}
+			findHolder(r.FI, 0)
+			if holder != nil {
+				h := c.CtxOf(holder)
+				hi := h.Info
+				var prevObj, okObj types.Object
+				ast.Inspect(holder.Decl.Body, func(n ast.Node) bool {
+					if as, ok := n.(*ast.AssignStmt); ok && len(as.Rhs) == 1 && strings.Contains(exprStr(as.Rhs[0]), "Session()") {
+						if len(as.Lhs) >= 1 {
+							prevObj = objOf(hi, as.Lhs[0])
+						}
+						if len(as.Lhs) == 2 {
+							okObj = objOf(hi, as.Lhs[1])
+						}
+					}
+					return true
+				})
+				logouts := h.F.Find(func(n ast.Node) bool {
+					for _, call := range callsAt(n) {
+						if methodName(call) == "Logout" && recvObj(hi, call) == prevObj && prevObj != nil {
+							return true
+						}
+					}
+					return false
+				})
+				w := h.F.World(func(atom ast.Expr) (bool, bool) {
+					atom = ast.Unparen(atom)
+					if okObj != nil && objOf(hi, atom) == okObj {
+						return true, true
+					}
+					if be, ok := atom.(*ast.BinaryExpr); ok && (be.Op == token.EQL || be.Op == token.NEQ) && isNilIdent(hi, be.Y) {
+						if o := objOf(hi, be.X); o != nil && (o == prevObj) {
+							return be.Op == token.NEQ, true
+						}
+						// the connection itself is present
+						if pv, isVar := objOf(hi, be.X).(*types.Var); isVar && typeIs(pv.Type(), goSMTPPkg, "Conn") {
+							return be.Op == token.NEQ, true
+						}
+					}
+					return false, false
+				})
+				sawAssign := func(pt Pt) bool { return false }
+				_ = sawAssign
+				// from the point where the previous session was obtained
+				var from []Pt
+				for _, pt := range h.F.Points() {
+					if as, ok := pt.Node().(*ast.AssignStmt); ok && len(as.Rhs) == 1 && strings.Contains(exprStr(as.Rhs[0]), "Session()") {
+						from = append(from, pt)
+					}
+				}
+				if _, f := h.F.Reach(Query{From: from, Target: h.IsSuccessReturn, Avoid: isPt(logouts), AvoidEdge: w}); f || len(from) == 0 || len(logouts) == 0 {
+					maddyOK = false
+				}
+				// and every way to a successful return obtains it when there is a connection
+				if _, f := h.F.Reach(Query{From: h.Entry(), Inclusive: true, Target: h.IsSuccessReturn, Avoid: isPt(from), AvoidEdge: w}); f {
+					maddyOK = false
+				}
+			}
+		}
 	}
 	c.Hold("A1", "session-replaced-is-logged-out", token.NoPos, libOK || maddyOK,
 		"the SMTP library replaces the session on a repeated EHLO/LHLO (in "+libWhere+") without calling Logout or Reset on the old one, and maddy's NewSession does not compensate: a transaction that is open at that moment is never aborted – its delivery stays open and its limit permits are never returned")
